@@ -181,6 +181,12 @@ BOOL_CONSUMERS = ["{ RdV = @; }", "{ RddV = @; }", "{ int8_t q = @; RdV = q; }",
                   "{ RxV <<= @; }", "{ RdV = RsV * @; }", "{ RdV = extract32(RsV, @, 3); }"]
 
 
+# compound assignments where exactly one side is 64 bit wide / an operand is a predicate
+WIDE_COMPOUND = [t.replace("@", op) for op in ("+=", "-=", "*=", "/=", "%=", "&=", "|=", "^=", "<<=", ">>=")
+                 for t in ("{ RxxV @ RsV; }", "{ RxV @ RssV; }", "{ int64_t a = RssV; a @ 2; RddV = a; }", "{ RxxV @ PsV; }",
+                           "{ RxV @ 2LL; }", "{ for (i = 0; i < 2; i++) { RxxV @ i; } }", "{ uint32_t a = RsV; a @ RttV; RdV = a; }")]
+
+
 def bool_consumer_templates():
     """every shape of truth-valued expression x every kind of consumer: conditions must receive booleans, everything
     else the 0/1 integer"""
@@ -193,7 +199,8 @@ def template_texts(which):
     if which != "C10":
         t += list(c09.DEAD_ARM_TEMPLATES)
     if which in ("C11", "C10", "C12"):
-        t += context_templates() + bool_consumer_templates()
+        from . import c16
+        t += context_templates() + bool_consumer_templates() + c16.NARROW_COMPOUND + WIDE_COMPOUND
     if which == "C12":
         # value-bearing statement-expressions are the class of the listed finding
         # KF-C12-statement-expression-declaration-emitted-twice: excluded by construction for C12
